@@ -22,17 +22,10 @@ theorem collectMoves_full (b : Board) :
     · simp only [h0, h1, if_true, if_false, Bool.not_false, Bool.false_eq_true]
     · simp only [h0, h1, if_false, Bool.not_false, Bool.false_eq_true, List.append_nil, List.nil_append]
 
-theorem inEntries_append (xs ys : List Entry) (m : Move) :
-    InEntries (xs ++ ys) m ↔ (InEntries xs m ∨ InEntries ys m) := by
-  unfold InEntries
-  constructor
-  · rintro ⟨e, he, h⟩
-    rcases List.mem_append.1 he with he | he
-    · exact Or.inl ⟨e, he, h⟩
-    · exact Or.inr ⟨e, he, h⟩
-  · rintro (⟨e, he, h⟩ | ⟨e, he, h⟩)
-    · exact ⟨e, List.mem_append_left _ he, h⟩
-    · exact ⟨e, List.mem_append_right _ he, h⟩
+/- `inEntries_append (xs ys : List Entry) (m : Move) :
+    InEntries (xs ++ ys) m ↔ (InEntries xs m ∨ InEntries ys m)`
+is proved, with exactly this statement and this name (`Chess.Legal.inEntries_append`), in
+`Proofs/Legal/Generic.lean`; declaring it again here would clash. -/
 
 /-- the number of entries stays within the capacity on a well-formed board, so the fuel of
 `MoveGen.toList` suffices -/
@@ -131,8 +124,409 @@ theorem legals_iff (b : Board) (h : b.WF = true) (m : Move) :
     · exact Or.inl (Or.inr ⟨hpc, hl⟩)
     · exact Or.inr ⟨hpc, hl⟩
 
+/-! ### each move once
+
+The yielded list is `(collectMoves full).flatMap (entryMoves · full)`.  Every entry denotes a
+duplicate-free list, and two different entries denote disjoint lists because they are `Apart`:
+their sources differ, or (a pawn's ordinary entry and its en-passant entry) their destination sets
+are disjoint. -/
+
+/-- two entries that denote no common move: different sources or disjoint destination sets -/
+def Apart (e1 e2 : Entry) : Prop :=
+  e1.src ≠ e2.src ∨ ∀ d, BB.mem e1.moves d = true → BB.mem e2.moves d = true → False
+
+theorem mem_destMoves (e : Entry) (d : Sq) (m : Move)
+    (h : m ∈ (if e.promotion then MoveGen.promoPieces.map (fun p => (⟨e.src, d, some p⟩ : Move))
+      else [⟨e.src, d, none⟩])) :
+    m.source = e.src ∧ m.dest = d := by
+  split at h
+  · obtain ⟨p, _, rfl⟩ := List.mem_map.1 h
+    exact ⟨rfl, rfl⟩
+  · rw [List.mem_singleton.1 h]
+    exact ⟨rfl, rfl⟩
+
+theorem mem_entryMoves (e : Entry) (mask : BB) (m : Move) (h : m ∈ Props.C10.entryMoves e mask) :
+    m.source = e.src ∧ BB.mem e.moves m.dest = true := by
+  unfold Props.C10.entryMoves at h
+  obtain ⟨d, hd, hm⟩ := List.mem_flatMap.1 h
+  obtain ⟨h1, h2⟩ := mem_destMoves e d m hm
+  rw [BB.mem_toList, BB.mem_and', Bool.and_eq_true] at hd
+  exact ⟨h1, by rw [h2]; exact hd.1⟩
+
+theorem promoPieces_nodup : MoveGen.promoPieces.Pairwise (· ≠ ·) := by decide
+
+/-- one entry denotes each of its moves once -/
+theorem entryMoves_nodup (e : Entry) (mask : BB) : (Props.C10.entryMoves e mask).Nodup := by
+  unfold Props.C10.entryMoves List.Nodup
+  rw [List.pairwise_flatMap]
+  constructor
+  · intro d _
+    split
+    · rw [List.pairwise_map]
+      exact promoPieces_nodup.imp (fun hne heq => hne (by injection heq with _ _ h3; injection h3))
+    · exact List.pairwise_singleton _ _
+  · refine (BB.toList_ascending _).imp ?_
+    intro d1 d2 hlt x hx y hy hxy
+    have h1 := (mem_destMoves e d1 x hx).2
+    have h2 := (mem_destMoves e d2 y hy).2
+    rw [hxy, h2] at h1
+    rw [h1] at hlt
+    exact Nat.lt_irrefl _ hlt
+
+theorem entryMoves_disjoint (e1 e2 : Entry) (mask : BB) (h : Apart e1 e2) :
+    ∀ x ∈ Props.C10.entryMoves e1 mask, ∀ y ∈ Props.C10.entryMoves e2 mask, x ≠ y := by
+  intro x hx y hy hxy
+  subst hxy
+  obtain ⟨s1, d1⟩ := mem_entryMoves e1 mask x hx
+  obtain ⟨s2, d2⟩ := mem_entryMoves e2 mask x hy
+  rcases h with h | h
+  · exact h (s1.symm.trans s2)
+  · exact h _ d1 d2
+
+/-- pairwise-apart entries denote a duplicate-free list of moves -/
+theorem flatMap_entryMoves_nodup (es : List Entry) (mask : BB) (h : es.Pairwise Apart) :
+    (es.flatMap (fun e => Props.C10.entryMoves e mask)).Nodup := by
+  unfold List.Nodup
+  rw [List.pairwise_flatMap]
+  exact ⟨fun e _ => entryMoves_nodup e mask, h.imp (fun hA => entryMoves_disjoint _ _ mask hA)⟩
+
+/-! #### sources of the entries -/
+
+theorem toList_nodup (x : BB) : (BB.toList x).Pairwise (· ≠ ·) :=
+  (BB.toList_ascending x).imp (fun hlt heq => by rw [heq] at hlt; exact Nat.lt_irrefl _ hlt)
+
+theorem pushEntries_mem (srcs : List Sq) (f : Sq → BB) (promo : Sq → Bool) (e : Entry)
+    (h : e ∈ Board.pushEntries srcs f promo) : e.src ∈ srcs ∧ e.moves = f e.src := by
+  unfold Board.pushEntries at h
+  obtain ⟨s, hs, he⟩ := List.mem_filterMap.1 h
+  simp only [] at he
+  split at he
+  · cases he
+  · cases he
+    exact ⟨hs, rfl⟩
+
+theorem pushEntries_distinct (srcs : List Sq) (f : Sq → BB) (promo : Sq → Bool)
+    (h : srcs.Pairwise (· ≠ ·)) :
+    (Board.pushEntries srcs f promo).Pairwise (fun e1 e2 => e1.src ≠ e2.src) := by
+  unfold Board.pushEntries
+  refine List.Pairwise.filterMap _ ?_ h
+  intro a a' hne e he e' he'
+  simp only [] at he he'
+  split at he
+  · cases he
+  · split at he'
+    · cases he'
+    · cases he
+      cases he'
+      exact hne
+
+theorem pushEntries_toList_src (x : BB) (f : Sq → BB) (promo : Sq → Bool) (e : Entry)
+    (h : e ∈ Board.pushEntries (BB.toList x) f promo) : BB.mem x e.src = true :=
+  (BB.mem_toList _ _).1 (pushEntries_mem _ _ _ _ h).1
+
+/-- unpinned sources followed by pinned sources: all in `pieces`, pairwise different -/
+theorem split_srcs (pieces pinned : BB) (f g : Sq → BB) (pr pr' : Sq → Bool) :
+    (∀ e ∈ Board.pushEntries (BB.toList (pieces &&& ~~~pinned)) f pr ++
+        Board.pushEntries (BB.toList (pieces &&& pinned)) g pr', BB.mem pieces e.src = true) ∧
+    (Board.pushEntries (BB.toList (pieces &&& ~~~pinned)) f pr ++
+        Board.pushEntries (BB.toList (pieces &&& pinned)) g pr').Pairwise (fun e1 e2 => e1.src ≠ e2.src) := by
+  constructor
+  · intro e he
+    rcases List.mem_append.1 he with he | he
+    · have := pushEntries_toList_src _ _ _ _ he
+      rw [BB.mem_and', Bool.and_eq_true] at this
+      exact this.1
+    · have := pushEntries_toList_src _ _ _ _ he
+      rw [BB.mem_and', Bool.and_eq_true] at this
+      exact this.1
+  · rw [List.pairwise_append]
+    refine ⟨pushEntries_distinct _ _ _ (toList_nodup _), pushEntries_distinct _ _ _ (toList_nodup _), ?_⟩
+    intro e1 h1 e2 h2 heq
+    have a1 := pushEntries_toList_src _ _ _ _ h1
+    have a2 := pushEntries_toList_src _ _ _ _ h2
+    rw [BB.mem_and', BB.mem_not', Bool.and_eq_true] at a1
+    rw [BB.mem_and', Bool.and_eq_true] at a2
+    rw [heq, a2.2] at a1
+    exact absurd a1.2 (by decide)
+
+theorem genericLegals_srcs (b : Board) (p : Piece) (ic : Bool) (mask : BB) :
+    (∀ e ∈ b.genericLegals p ic mask, BB.mem (b.raw.piece p &&& b.raw.color b.turn) e.src = true) ∧
+    (b.genericLegals p ic mask).Pairwise (fun e1 e2 => e1.src ≠ e2.src) := by
+  unfold Board.genericLegals
+  simp only []
+  split
+  · constructor
+    · intro e he
+      have := pushEntries_toList_src _ _ _ _ he
+      rw [BB.mem_and', Bool.and_eq_true] at this
+      exact this.1
+    · exact pushEntries_distinct _ _ _ (toList_nodup _)
+  · exact split_srcs _ _ _ _ _ _
+
+/-! #### pawns: ordinary entries and en-passant entries -/
+
+/-- the entries for pushes and captures -/
+def pawnOrd (b : Board) (ic : Bool) (mask : BB) : List Entry :=
+  let all := b.raw.all
+  let k := b.kingSq b.turn
+  let pieces := b.raw.pawn &&& b.raw.color b.turn
+  let cm := b.checkMask ic k
+  let seventh : Rank := match b.turn with | .white => 6 | .black => 1
+  let promo := fun (src : Sq) => decide (src.rank = seventh)
+  Board.pushEntries (BB.toList (pieces &&& ~~~b.pinned))
+    (fun src => Board.pseudoLegals .pawn src b.turn all mask &&& cm) promo ++
+  (if ic then [] else
+    Board.pushEntries (BB.toList (pieces &&& b.pinned))
+      (fun src => Board.pseudoLegals .pawn src b.turn all mask &&& Lookup.line k src) promo)
+
+/-- the en-passant entries -/
+def pawnEp (b : Board) (mask : BB) : List Entry :=
+  match b.ep with
+  | none => []
+  | some f =>
+    if BB.any (BB.ofSq (Sq.mk f b.turn.epCaptureRank) &&& mask) then
+      (BB.toList (BB.ofRank b.turn.epPawnRank &&& Lookup.adjacentFiles f &&&
+        (b.raw.pawn &&& b.raw.color b.turn))).filterMap fun src =>
+        if b.isSafeAfterEnpassant (b.kingSq b.turn) (BB.ofSq src) (BB.ofSq (Sq.mk f b.turn.epCaptureRank))
+          (BB.ofSq (Sq.mk f b.turn.epPawnRank)) then
+          some ⟨src, BB.ofSq (Sq.mk f b.turn.epCaptureRank), false⟩ else none
+    else []
+
+theorem pawnLegals_eq (b : Board) (ic : Bool) (mask : BB) :
+    b.pawnLegals ic mask = pawnOrd b ic mask ++ pawnEp b mask := rfl
+
+theorem pawnOrd_srcs (b : Board) (ic : Bool) (mask : BB) :
+    (∀ e ∈ pawnOrd b ic mask, BB.mem (b.raw.pawn &&& b.raw.color b.turn) e.src = true ∧
+      ∀ d, BB.mem e.moves d = true → BB.mem (Board.pseudoLegals .pawn e.src b.turn b.raw.all mask) d = true) ∧
+    (pawnOrd b ic mask).Pairwise (fun e1 e2 => e1.src ≠ e2.src) := by
+  unfold pawnOrd
+  simp only []
+  generalize (fun (src : Sq) => decide (src.rank = (match b.turn with | .white => (6 : Rank) | .black => 1))) = promo
+  constructor
+  · intro e he
+    have hm : ∀ (x : BB) (g : Sq → BB) (pr : Sq → Bool),
+        e ∈ Board.pushEntries (BB.toList ((b.raw.pawn &&& b.raw.color b.turn) &&& x))
+          (fun src => Board.pseudoLegals .pawn src b.turn b.raw.all mask &&& g src) pr →
+        BB.mem (b.raw.pawn &&& b.raw.color b.turn) e.src = true ∧
+        ∀ d, BB.mem e.moves d = true → BB.mem (Board.pseudoLegals .pawn e.src b.turn b.raw.all mask) d = true := by
+      intro x g pr hx
+      obtain ⟨h1, h2⟩ := pushEntries_mem _ _ _ _ hx
+      rw [BB.mem_toList, BB.mem_and', Bool.and_eq_true] at h1
+      refine ⟨h1.1, ?_⟩
+      intro d hd
+      rw [h2, BB.mem_and', Bool.and_eq_true] at hd
+      exact hd.1
+    rcases List.mem_append.1 he with he | he
+    · exact hm _ _ _ he
+    · cases ic
+      · exact hm _ _ _ he
+      · cases he
+  · cases ic
+    · exact (split_srcs _ _ _ _ _ _).2
+    · exact List.pairwise_append.2 ⟨pushEntries_distinct _ _ _ (toList_nodup _), List.Pairwise.nil,
+        fun _ _ _ hx => nomatch hx⟩
+
+theorem pawnEp_srcs (b : Board) (mask : BB) :
+    (∀ e ∈ pawnEp b mask, ∃ f, b.ep = some f ∧
+      BB.mem (BB.ofRank b.turn.epPawnRank &&& Lookup.adjacentFiles f &&& (b.raw.pawn &&& b.raw.color b.turn)) e.src = true ∧
+      e.moves = BB.ofSq (Sq.mk f b.turn.epCaptureRank)) ∧
+    (pawnEp b mask).Pairwise (fun e1 e2 => e1.src ≠ e2.src) := by
+  unfold pawnEp
+  split
+  · exact ⟨fun _ h => (nomatch h), List.Pairwise.nil⟩
+  · rename_i f hf
+    split
+    · constructor
+      · intro e he
+        obtain ⟨s, hs, he⟩ := List.mem_filterMap.1 he
+        split at he
+        · cases he
+          exact ⟨f, hf, (BB.mem_toList _ _).1 hs, rfl⟩
+        · cases he
+      · refine List.Pairwise.filterMap _ ?_ (toList_nodup _)
+        intro a a' hne e he e' he'
+        split at he
+        · split at he'
+          · cases he
+            cases he'
+            exact hne
+          · cases he'
+        · cases he
+    · exact ⟨fun _ h => (nomatch h), List.Pairwise.nil⟩
+
+/-- the two files next to `f` do not contain file `f` (closed fact, 8 × 64 cases) -/
+theorem adjacentFiles_ne : ∀ (f : File) (s : Sq), BB.mem (Lookup.adjacentFiles f) s = true → s.val % 8 ≠ f.val := by
+  decide +kernel
+
+/-- a pawn on a file next to `f` has no push or capture to an empty square of file `f` -/
+theorem ep_not_ordinary (c : Color) (s : Sq) (f : File) (r : Rank) (all mask : BB)
+    (hs : BB.mem (Lookup.adjacentFiles f) s = true) (hall : BB.mem all (Sq.mk f r) = false) :
+    BB.mem (Board.pseudoLegals .pawn s c all mask) (Sq.mk f r) = false := by
+  rw [AbsL.mem_pseudo_pawn, hall, Bool.and_false, Bool.or_false]
+  have hne := adjacentFiles_ne f s hs
+  have hp : pawnPushTbl c s (Sq.mk f r) = false := by
+    have : (dF s (Sq.mk f r) == 0) = false := by
+      rw [beq_eq_false_iff_ne]
+      unfold dF fileI Sq.mk
+      simp only []
+      have := f.isLt
+      omega
+    unfold pawnPushTbl
+    rw [this, Bool.false_and]
+  have hq : Props.C09.quietRes (Props.C09.front c s) (pawnPushTbl c s) all (Sq.mk f r) = false := by
+    unfold Props.C09.quietRes
+    cases Props.C09.front c s with
+    | none => rfl
+    | some u => simp only [hp, Bool.and_false, Bool.false_and]
+  rw [hq, Bool.false_and]
+
+theorem pawnLegals_srcs (b : Board) (ic : Bool) (mask : BB) :
+    ∀ e ∈ b.pawnLegals ic mask, BB.mem (b.raw.pawn &&& b.raw.color b.turn) e.src = true := by
+  intro e he
+  rw [pawnLegals_eq] at he
+  rcases List.mem_append.1 he with he | he
+  · exact ((pawnOrd_srcs b ic mask).1 e he).1
+  · obtain ⟨f, _, h2, _⟩ := (pawnEp_srcs b mask).1 e he
+    rw [BB.mem_and', Bool.and_eq_true] at h2
+    exact h2.2
+
+/-- the pawn entries are pairwise apart, provided the e.p. target square is empty -/
+theorem pawnLegals_apart (b : Board) (ic : Bool) (mask : BB)
+    (hep : ∀ f, b.ep = some f → BB.mem b.raw.all (Sq.mk f b.turn.epCaptureRank) = false) :
+    (b.pawnLegals ic mask).Pairwise Apart := by
+  rw [pawnLegals_eq, List.pairwise_append]
+  refine ⟨(pawnOrd_srcs b ic mask).2.imp Or.inl, (pawnEp_srcs b mask).2.imp Or.inl, ?_⟩
+  intro e1 h1 e2 h2
+  obtain ⟨_, hmv⟩ := (pawnOrd_srcs b ic mask).1 e1 h1
+  obtain ⟨f, hf, hsrc, hdest⟩ := (pawnEp_srcs b mask).1 e2 h2
+  by_cases heq : e1.src = e2.src
+  · right
+    intro d hd1 hd2
+    rw [hdest, BB.mem_ofSq, beq_iff_eq] at hd2
+    subst hd2
+    have := hmv _ hd1
+    rw [BB.mem_and', BB.mem_and', Bool.and_eq_true, Bool.and_eq_true] at hsrc
+    rw [heq, ep_not_ordinary b.turn e2.src f _ b.raw.all mask hsrc.1.2 (hep f hf)] at this
+    cases this
+  · exact Or.inl heq
+
+theorem ite_nil_singleton_srcs (c : Prop) [Decidable c] (x : Entry) :
+    (∀ e ∈ (if c then [] else [x]), e.src = x.src) ∧ (if c then [] else [x]).Pairwise Apart := by
+  split
+  · exact ⟨fun _ h => (nomatch h), List.Pairwise.nil⟩
+  · exact ⟨fun e h => by rw [List.mem_singleton.1 h], List.pairwise_singleton _ _⟩
+
+theorem kingLegals_srcs (b : Board) (ic : Bool) (turn : Color) (mask : BB) :
+    (∀ e ∈ b.kingLegals ic turn mask, e.src = b.kingSq turn) ∧
+    (b.kingLegals ic turn mask).Pairwise Apart := by
+  unfold Board.kingLegals
+  exact ite_nil_singleton_srcs _ _
+
+/-! #### assembly -/
+
+/-- the entry list of one piece type -/
+def pieceList (b : Board) : Piece → List Entry
+  | .pawn => pawnList b
+  | .king => kingList b
+  | pc => genericList b pc
+
+theorem genericList_srcs (b : Board) (pc : Piece) :
+    (∀ e ∈ genericList b pc, BB.mem (b.raw.piece pc &&& b.raw.color b.turn) e.src = true) ∧
+    (genericList b pc).Pairwise Apart := by
+  unfold genericList
+  split
+  · exact ⟨(genericLegals_srcs b pc _ _).1, (genericLegals_srcs b pc _ _).2.imp Or.inl⟩
+  · split
+    · exact ⟨(genericLegals_srcs b pc _ _).1, (genericLegals_srcs b pc _ _).2.imp Or.inl⟩
+    · exact ⟨fun _ h => (nomatch h), List.Pairwise.nil⟩
+
+/-- `validate_en_passant` succeeded -/
+theorem wf_validateEp (b : Board) (h : b.WF = true) : b.validateEnPassant = .ok () := by
+  have hv := AbsL.wf_validate b h
+  unfold Board.validate at hv
+  split at hv
+  · cases hv
+  · split at hv
+    · cases hv
+    · split at hv
+      · cases hv
+      · assumption
+
+/-- the e.p. target square of a well-formed board is empty -/
+theorem wf_ep_empty (b : Board) (h : b.WF = true) (f : File) (hf : b.ep = some f) :
+    BB.mem b.raw.all (Sq.mk f b.turn.epCaptureRank) = false := by
+  have hp := AbsL.wf_partition b h
+  have hve := wf_validateEp b h
+  unfold Board.validateEnPassant at hve
+  rw [hf] at hve
+  simp only [] at hve
+  split at hve
+  · cases hve
+  · rename_i hn
+    rw [← AbsL.occupied_iff b hp, Position.occupied, ← AbsL.get_eq b hp]
+    simpa using hn
+
+theorem pawnList_srcs (b : Board) (h : b.WF = true) :
+    (∀ e ∈ pawnList b, BB.mem (b.raw.piece .pawn &&& b.raw.color b.turn) e.src = true) ∧
+    (pawnList b).Pairwise Apart := by
+  unfold pawnList
+  split
+  · exact ⟨pawnLegals_srcs b _ _, pawnLegals_apart b _ _ (wf_ep_empty b h)⟩
+  · split
+    · exact ⟨pawnLegals_srcs b _ _, pawnLegals_apart b _ _ (wf_ep_empty b h)⟩
+    · exact ⟨fun _ h => (nomatch h), List.Pairwise.nil⟩
+
+theorem pieceList_srcs (b : Board) (h : b.WF = true) (pc : Piece) :
+    (∀ e ∈ pieceList b pc, (abs b).pieceAt e.src = some (b.turn, pc)) ∧
+    (pieceList b pc).Pairwise Apart := by
+  have hp := AbsL.wf_partition b h
+  have key : ∀ l : List Entry,
+      (∀ e ∈ l, BB.mem (b.raw.piece pc &&& b.raw.color b.turn) e.src = true) →
+      ∀ e ∈ l, (abs b).pieceAt e.src = some (b.turn, pc) := by
+    intro l hl e he
+    have := hl e he
+    rw [AbsL.mem_piece_color b hp, decide_eq_true_eq] at this
+    exact this
+  cases pc
+  case pawn => exact ⟨key _ (pawnList_srcs b h).1, (pawnList_srcs b h).2⟩
+  case king =>
+    refine ⟨?_, (kingLegals_srcs b _ _ _).2⟩
+    intro e he
+    rw [(kingLegals_srcs b _ _ _).1 e he]
+    exact AbsL.king_at b hp (AbsL.wf_hasKings b h) b.turn
+  all_goals exact ⟨key _ (genericList_srcs b _).1, (genericList_srcs b _).2⟩
+
+/-- the entries `collect_moves` pushes are pairwise apart -/
+theorem collectMoves_apart (b : Board) (h : b.WF = true) : (b.collectMoves BB.full).Pairwise Apart := by
+  have hl : b.collectMoves BB.full =
+      [Piece.pawn, .knight, .bishop, .rook, .queen, .king].flatMap (pieceList b) := by
+    rw [collectMoves_full]
+    simp only [List.flatMap_cons, List.flatMap_nil, pieceList, List.append_assoc, List.append_nil]
+  rw [hl, List.pairwise_flatMap]
+  refine ⟨fun pc _ => (pieceList_srcs b h pc).2, ?_⟩
+  have hnd : [Piece.pawn, .knight, .bishop, .rook, .queen, .king].Pairwise (· ≠ ·) := by decide
+  refine hnd.imp ?_
+  intro p1 p2 hne x hx y hy
+  left
+  intro heq
+  have h1 := (pieceList_srcs b h p1).1 x hx
+  have h2 := (pieceList_srcs b h p2).1 y hy
+  rw [heq, h2] at h1
+  injection h1 with h1
+  injection h1 with _ h1
+  exact hne h1.symm
+
 /-- **C01, each exactly once** -/
-theorem legals_nodup (b : Board) (h : b.WF = true) : b.legalsList.Nodup := sorry
+theorem legals_nodup (b : Board) (h : b.WF = true) : b.legalsList.Nodup := by
+  have hlen : (Props.C10.movesOf (MoveGen.legals b)).length < 5000 := by
+    rw [Props.C10.movesOf_eq]
+    exact Entries.mvsOf_length_lt _ (wf_entries_le b h)
+  unfold Board.legalsList MoveGen.toList
+  rw [Props.C10.drain_eq _ rfl 5000 hlen]
+  unfold Props.C10.movesOf
+  show (((b.collectMoves BB.full).drop 0).flatMap _).Nodup
+  rw [List.drop_zero]
+  exact flatMap_entryMoves_nodup _ _ (collectMoves_apart b h)
 
 /-- **C01, single-move query**: `is_legal` answers the specification's question -/
 theorem isLegal_iff_spec (b : Board) (h : b.WF = true) (m : Move) :
